@@ -251,7 +251,7 @@ fn precedence_job(seed: u64, j: usize, tier: Tier) -> Outcome {
     let mut o = Outcome::default();
     let opts = options();
     let mut r = Prng::new(seed ^ (j as u64).wrapping_mul(0x9E37_79B9_7F4A_7C15) ^ 0xC16);
-    let per = tier.pick(5, 500);
+    let per = tier.pick(150, 3000);
     // documented defaults must agree with the table
     if j == 0 {
         let doc = documented_defaults();
@@ -573,8 +573,8 @@ pub fn run(tier: Tier, seed: u64, only: Option<String>) -> i32 {
     rep.required_clauses = vec!["effective_value_is_cli_then_file_then_default", "derived_fields", "accepted_configuration_runs_without_panic", "default_is_the_documented_one"];
     let n_opts = options().len();
     let n_derived = tier.pick(8, 32);
-    let n_builder = 288 * tier.pick(4, 40);
-    let n_cli = tier.pick(16, 128);
+    let n_builder = 288 * tier.pick(16, 80);
+    let n_cli = tier.pick(64, 256);
     match only {
         Some(s) if s.starts_with('d') => rep.merge(derived_job(seed, s[1..].parse().unwrap_or(0), tier)),
         Some(s) if s.starts_with('b') => {
